@@ -17,7 +17,7 @@ RULE = ("headless sessions of the real Model (held Term, scripted command feeder
 EXTRA_PROPS = ["SessionFG"]   # the same statements at READ granularity (Props/SessionFG.lean)
 ASSUMPTIONS = ["granularity: the theorems fg_* are proved for the system in which the heart-beat handler is split at every read of a foreign flag and other threads run between any two "
                "reads (Model/SessionFG.lean); what stays atomic there: the harvest (one critical section), restart_matcher (no matcher thread exists while it runs; reader pushes commute "
-               "with it) and the user-event handlers (kill = store + join). The trace replay still uses the coarse system (atomic handlers, stale-false reads)",
+               "with it) and the user-event handlers (kill = store + join). Heart-beat iterations of the trace are replayed through the same fine-grained system in trace order (nothing moved)",
                "rayon's par_iter inside one matcher run is one atomic tPublish; channels are FIFO; the timer fires unless its guard is dropped",
                "the per-item verdict of the engines is a parameter (match table computed with the real engine factories)"]
 
@@ -63,5 +63,5 @@ LEVEL_TEXT = ("c01_invariant proves the accounting invariant for every history o
               "are the same safety statements for the fine-grained system (handler split at every read, accurate or stale readings, any steps of other threads in between); "
               "fg_contains_atomic: the atomic handler is one of its schedules. "
               "Tie: real sessions emit an ordered trace of their shared-memory steps; the Lean step function must accept it and predict list/selection/clear state after every loop iteration.")
-LEVEL_NOTE = ("PARTIAL for liveness: termination needs weak fairness of the four threads, which is not formalised. Granularity: safety is proved at read granularity (fg_*); liveness and the trace replay use the coarse system "
-              "(atomic handlers with stale-false reads). Trusted: Lean kernel, the trace hooks (feature `verif`) and vlib/props/session.py (linearisation rules stated there), rayon/crossbeam/timer.")
+LEVEL_NOTE = ("PARTIAL for liveness: termination needs weak fairness of the four threads, which is not formalised. Granularity: safety is proved at read granularity (fg_*); the trace replay of heart beats is at read granularity too (trace order, nothing moved); liveness is stated for the "
+              "coarse system (atomic handlers with stale-false reads). Trusted: Lean kernel, the trace hooks (feature `verif`) and vlib/props/session.py (linearisation rules stated there), rayon/crossbeam/timer.")
